@@ -398,16 +398,22 @@ func (r *Router) AddChunkFilter(filter ChunkFilter) {
 func (r *Router) assignIPAddress() (net.IP, error) {
 	// See: https://stackoverflow.com/questions/14915188/ip-address-ending-with-zero
 
-	if r.lastID == 0xfe {
-		return nil, errAddressSpaceExhausted
+	for {
+		if r.lastID == 0xfe {
+			return nil, errAddressSpaceExhausted
+		}
+
+		ip := make(net.IP, 4)
+		copy(ip, r.ipv4Net.IP[:3])
+		r.lastID++
+		ip[3] = r.lastID
+
+		if _, inUse := r.nics[ip.String()]; inUse {
+			continue // held by a NIC with a static address
+		}
+
+		return ip, nil
 	}
-
-	ip := make(net.IP, 4)
-	copy(ip, r.ipv4Net.IP[:3])
-	r.lastID++
-	ip[3] = r.lastID
-
-	return ip, nil
 }
 
 func (r *Router) push(c Chunk) {
